@@ -76,6 +76,16 @@ Theorem C19_meta_safe : forall excl data e id, load_event excl data = Some (e, i
 Proof. exact load_event_safe. Qed.
 Print Assumptions C19_meta_safe.
 
+(* the flags success / failure / notify of the loaded event are booleans - bool() of whatever JSON value the
+   peer sent (a string in notify would otherwise become the name of an event class inside Value.inform, which
+   runs outside the dispatcher's try) *)
+Theorem C19_flags_bool : forall excl data e id, load_event excl data = Some (e, id) ->
+  exists o s f n, data = JObj o /\ get k_success o = Some s /\ get k_failure o = Some f /\
+                  get k_notify o = Some n /\
+                  esuccess e = truthy s /\ efailure e = truthy f /\ enotify e = truthy n.
+Proof. exact load_event_flags. Qed.
+Print Assumptions C19_flags_bool.
+
 (* ... hence what _dispatcher/_eventDone read from it cannot make them raise (model: dispatch_safe) *)
 Theorem C19_loop_survives : forall excl data e id, load_event excl data = Some (e, id) ->
   mem_str k_cause excl = true -> dispatch_safe e = true.
